@@ -58,8 +58,17 @@ impl Drop for TreeSlot {
 
 pub(crate) struct ExtentReadGuard<'a>(&'a AtomicU32);
 
+#[cfg(feoxdb_verif)]
+impl ExtentReadGuard<'_> {
+    pub(crate) fn verif_id(&self) -> u64 {
+        self.0 as *const AtomicU32 as u64
+    }
+}
+
 impl Drop for ExtentReadGuard<'_> {
     fn drop(&mut self) {
+        #[cfg(feoxdb_verif)]
+        crate::verif::emit("unpin", &[], self.0 as *const AtomicU32 as u64, 0, 0);
         self.0.fetch_sub(1, Ordering::Release);
     }
 }
